@@ -87,6 +87,7 @@ func Load(repo string, whole bool, overlay map[string][]byte, extraEnv ...string
 	}
 	sort.Slice(pkgs, func(i, j int) bool { return pkgs[i].PkgPath < pkgs[j].PkgPath })
 	p := &Prog{Repo: repo, Fset: fset, Pkgs: map[string]*packages.Package{}, All: pkgs, SSAPkg: map[string]*ssa.Package{}, Whole: whole, Env: cfg.Env}
+	theProg = p
 	var prog *ssa.Program
 	var spkgs []*ssa.Package
 	if whole {
@@ -282,3 +283,6 @@ func (p *Prog) LoadLayers() (*packages.Package, error) {
 	p.Layers = pkgs[0]
 	return p.Layers, nil
 }
+
+// theProg: the program under analysis (for value classifiers that need whole-program facts).
+var theProg *Prog
